@@ -260,8 +260,8 @@ func generateLoop(l *ast.AstLoop, offset int, state *GenState) ([]SearchInstruct
 		}
 		body, gen_error := generateSearchInstruction(&l.Body, at, state)
 		copyDeclared = copyDeclared[:0]
-		for name, target := range state.variables {
-			if !before[name] && target == -1 {
+		for name := range state.variables {
+			if !before[name] {
 				copyDeclared = append(copyDeclared, name)
 			}
 		}
